@@ -15,6 +15,8 @@ import (
 	"verif/sim/simkit"
 )
 
+func init() { os.Setenv("VERIF_SOCKS_USER", "frank") }
+
 func envInt(name string, def int) int {
 	if v := os.Getenv(name); v != "" {
 		if n, err := strconv.Atoi(v); err == nil {
